@@ -264,7 +264,10 @@ func (p *Prog) FileOf(pos token.Pos) *ast.File {
 // structure the rules are written against (reffuncs.go): a helper somebody
 // extracted.  Its calls are folded back into the callers before analysis.
 func isHelper(f *ssa.Function) bool {
-	if nil == f || nil != f.Parent() || nil == f.Blocks || nil == f.Pkg || "" != f.Synthetic {
+	if nil == f || nil != f.Parent() || nil == f.Blocks {
+		return false
+	}
+	if nil == f.Pkg || "" != f.Synthetic {
 		return false
 	}
 	if !strings.HasPrefix(f.Pkg.Pkg.Path(), ModPath) {
